@@ -362,7 +362,6 @@ func VerifH_C13_PolynomialEvaluation() {
 	vCover("C13-reached")
 }
 
-
 // vFindDenominator returns a product D of powers (0..4) of the consumed primes such that g·D mod Q, centred, is small
 // (at least 16 bits below Q); nil if there is none.
 func vFindDenominator(g, Q *big.Int, primes []*big.Int) *big.Int {
